@@ -1,6 +1,7 @@
 package main
 
 import (
+	"sort"
 	"fmt"
 	"go/token"
 	"go/types"
@@ -360,21 +361,67 @@ func checkNonNilEdge(c *Ctx, fn *ssa.Function, s errSite, flow map[ssa.Value]boo
 	isLatchFn := errSlot < 0 && fn.Signature.Results().Len() == 1 && types.Identical(fn.Signature.Results().At(0).Type(), types.Typ[types.Bool])
 	isIntFn := errSlot < 0 && fn.Signature.Results().Len() == 1 && types.Identical(fn.Signature.Results().At(0).Type(), types.Typ[types.Int])
 
-	seen := map[*ssa.BasicBlock]bool{}
+	// the walk is path sensitive in one respect: the set of error values known
+	// to be non-nil on the path (the tested value, and phis that receive it on
+	// the edges taken); a later nil test of such a value has one outcome
+	seen := map[string]bool{}
 	var problem string
-	var walk func(b *ssa.BasicBlock, latched bool)
-	walk = func(b *ssa.BasicBlock, latched bool) {
+	knownKey := func(k map[ssa.Value]bool) string {
+		var n []string
+		for v := range k {
+			n = append(n, v.Name())
+		}
+		sort.Strings(n)
+		return strings.Join(n, ",")
+	}
+	var walk func(b, prev *ssa.BasicBlock, latched bool, known map[ssa.Value]bool)
+	walk = func(b, prev *ssa.BasicBlock, latched bool, known map[ssa.Value]bool) {
 		if problem != "" {
 			return
+		}
+		// phis of b as seen from prev
+		if prev != nil {
+			pi := -1
+			for i, pb := range b.Preds {
+				if pb == prev {
+					pi = i
+				}
+			}
+			var add, del []ssa.Value
+			for _, in := range b.Instrs {
+				ph, ok := in.(*ssa.Phi)
+				if !ok {
+					break
+				}
+				if pi >= 0 && (known[ph.Edges[pi]] || neverNilError(c, ph.Edges[pi])) {
+					add = append(add, ph)
+				} else if known[ph] {
+					del = append(del, ph)
+				}
+			}
+			if len(add)+len(del) > 0 {
+				k2 := map[ssa.Value]bool{}
+				for v := range known {
+					k2[v] = true
+				}
+				for _, v := range del {
+					delete(k2, v)
+				}
+				for _, v := range add {
+					k2[v] = true
+				}
+				known = k2
+			}
 		}
 		if b == callBlk && b != S {
 			problem = "the path continues back to the call site (the failure is skipped, e.g. by 'continue')"
 			return
 		}
-		if seen[b] {
+		sk := fmt.Sprintf("%d|%v|%s", b.Index, latched, knownKey(known))
+		if seen[sk] {
 			return
 		}
-		seen[b] = true
+		seen[sk] = true
 		for _, in := range b.Instrs {
 			// E2-alt: a retry of the same callee on the same receiver supersedes e
 			if call, ok := in.(*ssa.Call); ok && sameCallee == c.A.Match && staticCallee(call) == sameCallee && call != s.call {
@@ -398,7 +445,7 @@ func checkNonNilEdge(c *Ctx, fn *ssa.Function, s errSite, flow map[ssa.Value]boo
 			switch {
 			case errSlot >= 0:
 				v := retResults(ret)[errSlot]
-				if flow[v] || neverNilError(c, v) {
+				if flow[v] || neverNilError(c, v) || known[v] {
 					return
 				}
 				if isNilConst(v) {
@@ -437,11 +484,32 @@ func checkNonNilEdge(c *Ctx, fn *ssa.Function, s errSite, flow map[ssa.Value]boo
 		if len(b.Succs) == 0 {
 			return // panic / exit
 		}
+		// a nil test of a value known to be non-nil here has one outcome
+		if ifi := blockIf(b); ifi != nil {
+			if bo, ok := ifi.Cond.(*ssa.BinOp); ok && (bo.Op == token.NEQ || bo.Op == token.EQL) {
+				x, y := bo.X, bo.Y
+				if isNilConst(x) {
+					x, y = y, x
+				}
+				if isNilConst(y) && known[x] {
+					idx := 0
+					if bo.Op == token.EQL {
+						idx = 1
+					}
+					walk(b.Succs[idx], b, latched, known)
+					return
+				}
+			}
+		}
 		for _, sc := range b.Succs {
-			walk(sc, latched)
+			walk(sc, b, latched, known)
 		}
 	}
-	walk(S, false)
+	start := map[ssa.Value]bool{}
+	if t.through != nil {
+		start[t.through] = true
+	}
+	walk(S, t.blk, false, start)
 	return problem
 }
 
